@@ -348,12 +348,16 @@ class Pair(object):
         return out
 
     def close(self):
-        self.held = {True: {}, False: {}}
+        # cut the transport first: finalizers of the proxies dropped below must not start conversations
+        self.ma.on_idle = self.mb.on_idle = None
+        self.ma.close(), self.mb.close()
         for c in (self.ca, self.cb):
             try:
                 c.close()
             except Exception:
                 pass
+        self.held = {True: {}, False: {}}
+        self.sink = {True: [], False: []}
 
     # ---- values
     def build(self, spec, side):
@@ -788,6 +792,7 @@ def gen_spec(r, h, side, depth, stats):
             if lent:
                 e = r.choice(lent)
         stats["object"] = stats.get("object", 0) + 1
+        stats["object:" + e.kind] = stats.get("object:" + e.kind, 0) + 1
         return {"o": e.idx}
     stats["held-proxy"] = stats.get("held-proxy", 0) + 1
     return {"h": r.choice(held)}
@@ -974,42 +979,42 @@ def check_copy(ctx, which, idx):
                 return
             cp = classic.obtain(proxy)
             if is_netref(cp) or type(cp) is not type(obj) or not (cp == obj):
-                ctx.violation("obtain-not-equal:" + kind, case, observed="%s %s" % (type(cp).__name__, short(cp)), expected=short(obj),
+                ctx.violation("obtain-not-equal", case, observed="%s %s" % (type(cp).__name__, short(cp)), expected=short(obj),
                               what="obtain() did not produce an equal object of the same type")
                 return
             if mut is not None:
                 if cp is obj:
-                    ctx.violation("obtain-not-independent:" + kind, case, observed="same object", expected="a copy", what="obtain() returned the owner's object itself")
+                    ctx.violation("obtain-not-independent", case, observed="same object", expected="a copy", what="obtain() returned the owner's object itself")
                     return
                 before = repr(obj)
                 mut(cp)
                 if repr(obj) != before:
-                    ctx.violation("obtain-not-independent:" + kind, case, observed=repr(obj)[:100], expected=before[:100],
+                    ctx.violation("obtain-not-independent", case, observed=repr(obj)[:100], expected=before[:100],
                                   what="changing the obtained copy changed the owner's object")
                 before = repr(cp)
                 mut(obj)
                 if repr(cp) != before:
-                    ctx.violation("obtain-not-independent:" + kind, case, observed=repr(cp)[:100], expected=before[:100],
+                    ctx.violation("obtain-not-independent", case, observed=repr(cp)[:100], expected=before[:100],
                                   what="changing the owner's object changed the obtained copy")
         else:
             p = classic.deliver(pr.conn[True], obj)
             if not is_netref(p):
-                ctx.violation("deliver-not-a-reference:" + kind, case, observed=short(p), expected="a proxy of the remote copy",
+                ctx.violation("deliver-not-a-reference", case, observed=short(p), expected="a proxy of the remote copy",
                               what="deliver() did not return a reference to the copy made at the other party")
                 return
             remote = pr.conn[False]._local_objects[object.__getattribute__(p, "____id_pack__")]
             if type(remote) is not type(obj) or not (remote == obj):
-                ctx.violation("deliver-not-equal:" + kind, case, observed="%s %s" % (type(remote).__name__, short(remote)), expected=short(obj),
+                ctx.violation("deliver-not-equal", case, observed="%s %s" % (type(remote).__name__, short(remote)), expected=short(obj),
                               what="deliver() did not create an equal object of the same type at the other party")
                 return
             if mut is not None:
                 if remote is obj:
-                    ctx.violation("deliver-not-independent:" + kind, case, observed="same object", expected="a copy", what="deliver() did not copy")
+                    ctx.violation("deliver-not-independent", case, observed="same object", expected="a copy", what="deliver() did not copy")
                     return
                 before = repr(obj)
                 mut(remote)
                 if repr(obj) != before:
-                    ctx.violation("deliver-not-independent:" + kind, case, observed=repr(obj)[:100], expected=before[:100],
+                    ctx.violation("deliver-not-independent", case, observed=repr(obj)[:100], expected=before[:100],
                                   what="changing the delivered copy changed the local object")
     except Exception as e:
         ctx.violation("%s-fails:%s:%s" % (which, kind, type(e).__name__), case, observed=str(e)[:200], expected="an equal independent object",
@@ -1059,7 +1064,7 @@ def run(ctx):
         "abstract operation text")
     stats = {}
     hists = []
-    n_hist = 260 if ctx.quick else 6000
+    n_hist = 260 if ctx.quick else 5000
     pool_n = len(make_pool())
     # dedicated histories: every pool object, both directions for a few
     for idx in range(pool_n):
